@@ -196,6 +196,11 @@ MALFORMED = {
     'constructor-unhashable-key': '---\n? [a]\n: b\n',
     'constructor-python-tag': '---\n- ok\n- !!python/object/apply:os.getcwd []\n',
     'constructor-bad-timestamp-tag': '---\n!!timestamp [not, a, scalar]\n',
+    'constructor-nested-unknown-tag': '---\nouter: {a: [1, 2], b: {c: [3]}, d: !nosuch x}\nlater: [4]\n',
+    'constructor-nested-in-sequence': '---\n- [1, [2, [3]]]\n- {k: {j: !nosuch y}}\n',
+    # no '---': junk right after a document that a flow collection / quoted / block scalar has really terminated
+    'parser-junk-after-terminated-document': '[junk, after]\n',
+    'parser-junk-scalar-after-terminated-document': '"junk"\n',
     'reader-nonprintable': '---\nkey: va\x01lue\n',
     'reader-bad-utf8': '---\nkey: va\udcfflue\n',     # U+DCFF is replaced by the raw byte FF when encoded (bytes forms only)
 }
@@ -226,6 +231,10 @@ def generate(seed, tier):
         if bad == 'reader-bad-utf8' and form != 'utf8':
             form = case['form'] = 'utf8'
         case['malformed'] = bad
+        if bad.startswith('parser-junk'):
+            # the document before the junk must end in a token that terminates it for good
+            parts.append({'kind': 'doc', 'text': '--- ' + r.choice(['[a, b]', '{a: b}', '"quoted"', "'single'", '|\n  literal\n  text', '&x [1]'])
+                          + r.choice(['\n', '\n\n', '   # c\n'])})
         parts.append({'kind': 'bad', 'text': MALFORMED[bad]})
         if r.random() < 0.5:
             parts.append({'kind': 'doc', 'text': '---\n' + gen_body(rd, r.choice([10, 500, blk])), 'tail': True})
@@ -234,6 +243,16 @@ def generate(seed, tier):
         parts = gen_stream(rd, backend, ndocs=nd, tail_blocks=r.choice([0, 1, 2]))
         case['loader'] = r.choice(['SafeLoader', 'FullLoader', 'Loader', 'BaseLoader', 'UnsafeLoader']) if backend == 'py' \
             else r.choice(['CSafeLoader', 'CFullLoader', 'CLoader', 'CBaseLoader', 'CUnsafeLoader'])
+        if r.random() < 0.35:
+            # the iteration may also end with a YAMLError: a malformed document somewhere in the stream
+            kinds = [k for k in sorted(MALFORMED) if not k.startswith(('reader', 'parser-junk'))]
+            bad = r.choice(kinds + [k for k in kinds if k.startswith('constructor')] * 2)
+            case['malformed'] = bad
+            parts.insert(r.randrange(len(parts) + 1), {'kind': 'bad', 'text': MALFORMED[bad]})
+        if r.random() < 0.3 and not case['loader'].endswith('BaseLoader'):
+            # application tags served by a multi-constructor (prefix lookup) and by a two-step constructor
+            case['loader'] = 'Custom:' + case['loader']
+            parts.insert(r.randrange(len(parts) + 1), {'kind': 'doc', 'text': '---\n- !m/a {x: 1}\n- !m/b [1, 2]\n- !two {p: [1], q: !m/c z}\n'})
         after = r.randint(0, nd + 1) if api in ('load_all', 'compose_all') else r.choice([r.randint(0, 6), r.randint(0, 60)])
         case['abandon'] = {'after': after, 'how': r.choice(['close', 'throw', 'del', 'del', 'exhaust', 'stream_error', 'stream_error'])}
         if case['abandon']['how'] == 'stream_error':
@@ -282,7 +301,34 @@ def unit_offset(text, idx, form):
     return 2 + len(text[:idx].encode('utf-16-le'))
 
 
+_custom = {}
+
+
+def custom_loader(yaml, base):
+    """Subclass with a multi-constructor (prefix '!m/') and a two-step (generator) constructor ('!two')."""
+    if base not in _custom:
+        cls = type('Custom' + base, (getattr(yaml, base),), {})
+
+        def multi(loader, suffix, node):
+            if isinstance(node, yaml.MappingNode):
+                return [suffix, loader.construct_mapping(node, deep=True)]
+            if isinstance(node, yaml.SequenceNode):
+                return [suffix, loader.construct_sequence(node, deep=True)]
+            return [suffix, loader.construct_scalar(node)]
+
+        def two_step(loader, node):
+            data = {}
+            yield data
+            data.update(loader.construct_mapping(node))
+        cls.add_multi_constructor('!m/', multi)
+        cls.add_constructor('!two', two_step)
+        _custom[base] = cls
+    return _custom[base]
+
+
 def loader_for(yaml, case):
+    if (case.get('loader') or '').startswith('Custom:'):
+        return custom_loader(yaml, case['loader'][7:])
     if case.get('loader'):
         return getattr(yaml, case['loader'])
     return yaml.SafeLoader if case['backend'] == 'py' else yaml.CSafeLoader
